@@ -126,13 +126,13 @@ def sort_coq(s, classes):
     if s[0] == 'tuple':
         return '(' + ' * '.join(sort_coq(x, classes) for x in s[1]) + ')'
     if s[0] == 'opt':
-        return 'option ' + sort_coq(s[1], classes)
+        return '(option ' + sort_coq(s[1], classes) + ')'
     if s[0] == 'list':
-        return 'list ' + sort_coq(s[1], classes)
+        return '(list ' + sort_coq(s[1], classes) + ')'
     if s[0] == 'obj':
         return sort_coq(obj_tuple(s, classes), classes)
     if s[0] == 'res':
-        return 'res ' + sort_coq(s[1], classes)
+        return '(res ' + sort_coq(s[1], classes) + ')'
     raise ValueError(s)
 
 
@@ -790,7 +790,7 @@ class Translator:
             fs = flat(fn.result, self.classes)
             pat, val = self.pattern(fs, base)
             val = V(val.code, fn.result, val.parts)
-            return wrap(('bind', pat, v.code, k(val, env)))
+            return wrap(('bind', pat, v.code, k(val, env), sorted(fn.raises)))
         return wrap(k(v, env))
 
     def block(self, stmts, env, k):
@@ -915,7 +915,7 @@ class Translator:
         elif t in ('let', 'letpat'):
             self.leaves(ir[3], acc)
         elif t == 'bind':
-            acc['raises'].add('<callee>')
+            acc['raises'].update(ir[4])
             self.leaves(ir[3], acc)
 
     def render(self, ir, rs, raising, ind):
@@ -1030,7 +1030,7 @@ class Translator:
         self.setup(cls_name, False, {var})
         self.qual = f'{self.qual_of(fdef, cls_name)} :: {var}'
         self.classes = dict(self.classes)
-        free = set(reads) - {'np', 'math'}
+        free = set(reads) - ({'np', 'math', 'float', 'int', 'bool', 'abs', 'min', 'max', 'len', 'slice', 'isinstance'} - set(sorts))
         if isinstance(stmts[0], ast.Assign):
             first_reads = {t.id for t in ast.walk(stmts[0].value) if isinstance(t, ast.Name)}
             if var in first_reads:
@@ -1092,7 +1092,7 @@ class Translator:
                 if self.divisors else '') + ' *)\n')
         text = hdr + f'Definition {gen_name} {groups} : {rtxt} :=\n{body}.\n'
         fn = Fn(gen_name, list(self.params), rs, raising, text, list(self.divisors), span, sha)
-        fn.pyparams, fn.kind = pyparams, kind
+        fn.pyparams, fn.kind, fn.raises = pyparams, kind, set(acc['raises'])
         return fn
 
     def show(self, s):
